@@ -1,5 +1,5 @@
 """C04  Code-modifying options change only the tokens they name."""
-import os, re
+import collections, os, re
 
 from .. import bee, configs, oracles, run
 from ..lex import cfamily
@@ -91,7 +91,9 @@ def judge(case, r):
         sa, sb = sorted(sa), sorted(sb)
     if sa != sb:
         i = oracles.first_diff(sa, sb)
-        out.append({"clause": "token-not-named-by-enabled-options-changed" if on else "token-changed-with-all-mod-options-default",
+        ca, cb = collections.Counter(abstract(t) for t in sa), collections.Counter(abstract(t) for t in sb)
+        out.append({"removed": " ".join(sorted((ca - cb).keys())), "added": " ".join(sorted((cb - ca).keys())),
+                    "clause": "token-not-named-by-enabled-options-changed" if on else "token-changed-with-all-mod-options-default",
                     "enabled": ",".join(sorted(on)), "_in": " ".join(sa[max(0, i - 2):i + 3]), "_out": " ".join(sb[max(0, i - 2):i + 3]),
                     "tok_in": abstract(sa[i]) if i < len(sa) else "<end>", "tok_out": abstract(sb[i]) if i < len(sb) else "<end>"})
     elif okb and balanced(a) and not balanced(b):
